@@ -50,6 +50,12 @@ func Extreme(kind string) (time.Time, bool) {
 		return time.Time{}, true
 	case "zero-local": // the zero instant carried in a non-nil location
 		return time.Time{}.In(time.FixedZone("X", 0)), true
+	case "zero-east": // the zero instant carried in a location east of Greenwich: its wall clock is 0001-01-01 05:30:00
+		return time.Time{}.In(time.FixedZone("", 19800)), true
+	case "zero-east-14":
+		return time.Time{}.In(time.FixedZone("LINT", 14*3600)), true
+	case "epoch-east":
+		return time.Unix(0, 0).In(time.FixedZone("", 3600)), true
 	case "zero-unix":
 		return time.Unix(-62135596800, 0).UTC(), true
 	case "y10000":
